@@ -302,10 +302,14 @@ class DBStorage(BaseStorage):
             # expiration tags are also added for the garbage collector
             tags = set()
             for tag in event.tags:
+                if len(tag) < 2:
+                    # a tag without value is not searchable
+                    # (live matching and the LMDB index ignore it, too)
+                    continue
                 if tag[0] in ("delegation", "expiration"):
                     tags.add((tag[0], tag[1]))
                 elif len(tag[0]) == 1:
-                    tags.add((tag[0], tag[1] if len(tag) > 1 else ""))
+                    tags.add((tag[0], tag[1]))
             if tags:
                 await conn.execute(
                     self.tag_insert_query,
